@@ -109,7 +109,7 @@ def rk23Loop {σ : Type} (P : R23Params α n) (f : Rhs α n) (ob : Obs σ α n) 
 
 def rk23Start {σ : Type} (P : R23Params α n) (f : Rhs α n) (ob : Obs σ α n) (obs0 : σ) (x0 : α) (y0 : Vec α n)
     (firstStep : Option α) (hmaxArg : α) : Sum (R23State σ α n) (Result σ α n) :=
-  let i := startMeter f x0 y0 P.posneg firstStep (fun f' k1 =>
+  let i := startMeter f x0 y0 P.posneg P.hmax firstStep (fun f' k1 =>
     Gen.Common.hinit (f := f') (atol := P.atol) (rtol := P.rtol) (y := y0) (f0 := k1) (hmax := hmaxArg) (posneg := P.posneg)
       (x := x0) (iord := Gen.Static.rk23_hinitOrder))
   let m := i.2.2.cb x0 x0 y0 #[]
